@@ -150,10 +150,37 @@ def run_conc(prop, tier, seed, replay, extra=None, gate0=None):
             cid = '%s_o%d_%d' % (prop.lower(), j % len(pool), j)
             text, batches, fsw = conc.build_case(cid, g, rng, 1, images=imgs, alloc=al, open_only=True)
             cases.append({'cid': cid, 'g': g, 'text': text, 'batches': batches, 'fsw': fsw, 'init': fl0.blk, 'images': imgs})
-    obs = seqrun.run_cases_text(d, [(c['cid'], c['text']) for c in cases], timeout=1200)
+    seqflag = []
+    if prop == 'C18':
+        # sequential: an operation that fails half way (a discard across two L2 slices whose second slice load fails,
+        # a multi-cluster write whose later part fails) must leave the flag set if it dirtied anything
+        for j in range(40 if tier == 'quick' else 400):
+            cbx = rng.choice([9, 10])
+            gq = hist.Geom(cbx, rng.choice([4, 6]), 200 << cbx, 9, (9, 2 << 9), (9, 2 << 9), punch=rng.choice([1, 0]))
+            csq = gq.cs
+            sl = rng.choice([1, 2])
+            a1, a2 = sl * 64 - rng.randrange(1, 4), sl * 64 + rng.randrange(0, 4)
+            cid = '%s_q%d' % (prop.lower(), j)
+            kind = rng.choice(['R', 'R', 'W', 'Z'])
+            lines = ['W %d %d 1' % (a1 * csq, csq), 'W %d %d 2' % (a2 * csq, csq), 'F', 'K',
+                     'fault %s 0 %d %d' % (kind, 1 << 40, rng.randrange(0, 4)),
+                     rng.choice(['D %d %d' % (a1 * csq, (a2 - a1 + 1) * csq), 'D %d %d' % (a1 * csq, (a2 - a1 + 1) * csq),
+                                 'W %d %d 3' % ((a1 - 1) * csq, (a2 - a1 + 3) * csq)]),
+                     'faults clear', 'N']
+            seqflag.append((cid, hist.case_text(cid, gq, lines), gq))
+    obs = seqrun.run_cases_text(d, [(c['cid'], c['text']) for c in cases] + [(cid, t_) for cid, t_, _ in seqflag], timeout=1200)
     finds = []
     stats = collections.Counter()
     nsched = 0
+    for cid, t_, gq in seqflag:
+        ln = [l for l in obs.get(cid, []) if 'dirty=' in l]
+        stats['sequential_failed_op_cases'] += 1
+        if ln:
+            tk = ln[-1].split()
+            dirty = tuple(int(x) for x in tk[-1].split('=')[1].split(','))
+            if tk[3] == '0' and any(dirty):
+                finds.append(('flag', {'cid': cid, 'g': gq, 'text': t_, 'batches': [{'ops': [], 'seed': 0, 'mode': 0}], 'fsw': [], 'init': None, 'images': None},
+                              'need_flush_meta() returned false after an operation that failed half way although dirty metadata is cached (dirty L2 slices, refblock slices, L1 blocks, reftable blocks = %s)' % (dirty,), 0, ''))
     # C18: the flag sampled at quiescent points
     snaps = []
     for c in cases:
